@@ -2,7 +2,9 @@
 
 Supported: integer literals (with _ and type suffixes), identifiers, `self.a.b`, paths `A::B`, unary `!`,
 binary + - * / % << >> < <= > >= == != && ||, parentheses, `as T` (ignored: widening only),
-`u64::from(e)`, `T::from(e)`, method calls .min .max .saturating_sub .saturating_add .pow .into(),
+`u64::from(e)`, `T::from(e)`, `Some(e)` (-> `some e`; `==`/`!=` on options need DecidableEq of the Lean
+type), method calls .min .max .saturating_sub .saturating_add .pow .into(), argument-less methods named in
+the rename map as `<lean receiver>.<method>()` (e.g. `side.is_client()`),
 `if c { a } else if ... else { b }`, blocks with `let x = e;` and trailing expression, early
 `return e;` inside `if c { return e; }` statements.  Subtraction is translated to truncated Nat
 subtraction ONLY via `sub` hook: plain `-` becomes `(a - b)` and the caller is responsible for knowing the
@@ -138,6 +140,8 @@ class P:
                     args = self.args()
                     if fn in ('from', 'into', 'from_u32', 'from_u64') and len(args) == 1:
                         return args[0]
+                    if path == ['Some'] and len(args) == 1:
+                        return f"(some {args[0]})"
                     raise TranslateError(f"call {'::'.join(path)}")
                 if len(path) == 2 and path[1] == 'MAX' and path[0] in ('u64', 'u32', 'u16', 'u8', 'usize'):
                     bits = {'u64': 64, 'usize': 64, 'u32': 32, 'u16': 16, 'u8': 8}[path[0]]
@@ -172,6 +176,7 @@ class P:
                 elif m in ('into', 'into_inner', 'clone') and len(a) == 0: pass
                 elif m == 'is_some' and len(a) == 0: e = f"(Option.isSome {e})"
                 elif m == 'is_none' and len(a) == 0: e = f"(Option.isNone {e})"
+                elif len(a) == 0 and f"{e}.{m}()" in self.rename: e = self.rename[f"{e}.{m}()"]
                 else:
                     raise TranslateError(f"method .{m}/{len(a)}")
             else:
